@@ -231,6 +231,106 @@ def class_transforms(case, ctx):
 
 
 # ----------------------------------------------------------------------------
+def shared_case():
+  sp = L.prog_strategy(('counter', 'stat', 'tanh'), 1, 3, ('compact',))
+  return st.tuples(
+      st.lists(sp, min_size=1, max_size=3),
+      L.prog_strategy(allow=('counter', 'stat', 'tanh'), max_depth=1,
+                      max_ops=2, styles=('compact',)),
+      st.lists(st.integers(0, 2), min_size=1, max_size=4),
+      st.sampled_from(L.ALL_TR), st.booleans(),
+      st.sampled_from(['before', 'after', 'never']),
+      st.integers(1, 3), st.integers(0, 2**16),
+      st.lists(filter_strategy(), min_size=1, max_size=2))
+
+
+@clause('shared_attributes', strategy=shared_case, quick=130, thorough=5000,
+        quick_shards=8, thorough_shards=16, shrink=False,
+        rule='1-3 generated modules owned by the root are handed to a child '
+        'as dataclass attributes (a tuple attribute and, from two modules on, '
+        'a second attribute whose declaration order differs from its sorted '
+        'order); the child calls them in a generated order next to its own '
+        'ops, the root may call them too (before or after the child); the '
+        'child is plain or wrapped in nn.jit / nn.jit(variables=...) / '
+        'nn.remat / identity nn.map_variables; init tree (values too under '
+        'remat) and, for 1-2 mutable filters, outputs and returned '
+        'collections equal the plain program; non-trivial = >=2 shared '
+        'modules with different programs are called inside the child')
+def shared_attributes(case, ctx):
+  progs, own, order, tr, named, root_use, dim, seed, filters = case
+  progs = [L.dedupe_names(dict(p, cls='AB'[i % 2])) for i, p in
+           enumerate(progs)]
+  name = 'wrapped' if named else None
+  child_ops = []
+  own_ops = list(own['ops'])
+  for k, j in enumerate(order):
+    child_ops.append({'op': 'shared', 'j': j % len(progs)})
+    if k < len(own_ops):
+      child_ops.append(own_ops[k])
+  child = L.dedupe_names(dict(own, cls='W', style='compact', ops=child_ops))
+
+  def root(t):
+    op = {'op': 'sub', 'prog': child, 'name': name, 'calls': 1,
+          'attr': 'attr'}
+    if t:
+      op['tr'] = t
+    rops = [op]
+    if root_use == 'before':
+      rops = [{'op': 'shared', 'j': 0}] + rops
+    elif root_use == 'after':
+      rops = rops + [{'op': 'shared', 'j': len(progs) - 1}]
+    return L.normalize_case({
+        'dim': dim, 'prog': {'style': 'compact', 'cls': 'A', 'ops': rops},
+        'shared': progs, 'batch': [2], 'xseed': seed, 'seed': seed})
+  plain, trans = root(None), root(tr)
+  name_plain = name or 'NodeW_0'
+  name_tr = name or (L.TR_PREFIX[tr] + 'NodeW_0')
+  mp, mt = L.make_root(plain), L.make_root(trans)
+  x = L.make_input(plain)
+  key = {'params': jax.random.key(seed)}
+  with sut('init plain'):
+    yp, vp = mp.init_with_output(key, x)
+  with sut(f'init {tr}'):
+    yt, vt = mt.init_with_output(key, x)
+  vt_r = rename(unfreeze(vt), (), name_tr, name_plain)
+  sp = {k: np.shape(v) for k, v in L.flat(unfreeze(vp)).items()}
+  st_ = {k: np.shape(v) for k, v in L.flat(vt_r).items()}
+  require(sp == st_, lambda: f'init tree under {tr} differs from the plain '
+          f'program beyond the transformed class name:\n plain {sorted(sp)}\n '
+          f'{tr} {sorted(st_)}')
+  if named and tr == 'remat':
+    require(tree_close(unfreeze(vp), vt_r),
+            f'init values under {tr} differ from the plain program')
+    require(out_eq(yp, yt), f'init output under {tr} differs')
+  base_p = unfreeze(vp)
+  base_t = rename(base_p, (), name_plain, name_tr)
+  for hi, f in enumerate(filters):
+    mutable = build_filter(f)
+    with sut('apply plain'):
+      rp = mp.apply(base_p, x, mutable=mutable)
+    with sut(f'apply {tr}'):
+      rt = mt.apply(base_t, x, mutable=mutable)
+    if mutable is False:
+      require(out_eq(rp, rt), lambda: f'apply (mutable=False): {tr} output '
+              f'{np.asarray(rt)} differs from the plain program '
+              f'{np.asarray(rp)}')
+    else:
+      require(out_eq(rp[0], rt[0]), lambda: f'apply (mutable={mutable!r}): '
+              f'{tr} output differs from the plain program')
+      up = unfreeze(rp[1])
+      ut = rename(unfreeze(rt[1]), (), name_tr, name_plain)
+      require(set(up) == set(ut), lambda: f'apply (mutable={mutable!r}): '
+              f'{tr} returns collections {sorted(ut)}, plain {sorted(up)}')
+      require(tree_close(up, ut), lambda: f'apply (mutable={mutable!r}): '
+              f'updated collections under {tr} differ from plain')
+  used = {j % len(progs) for j in order}
+  distinct = len({repr(progs[j]['ops']) for j in used}) >= 2
+  ctx.note(labels=[tr, f'shared{len(progs)}', f'used{len(used)}',
+                   f'root-{root_use}', 'named' if named else 'auto'],
+           nontrivial=len(used) >= 2 and distinct)
+
+
+# ----------------------------------------------------------------------------
 def w_case():
   return st.tuples(
       L.case_strategy(allow=('counter', 'tanh'), max_depth=1, max_ops=3,
